@@ -521,7 +521,20 @@ class Weaver:
             props = (spec and spec['props']) or fprops_default
             disp = spec['disp'] if spec else 'default'
             auto = None
-            if re.search(r'\bf64\b', sig) or re.search(r'\bf64\b', body): auto = 'T8'
+            body_f = body
+            if spec and spec.get('closure'):
+                # closure literals that T15 moves out into an external_body factory do not count for the f64 rule
+                for (needle, _name, nth, _pin), _text in spec['closure']:
+                    idxs = [m.end() for m in re.finditer(re.escape(needle), body) if code(f['open'] + m.start())]
+                    if nth <= len(idxs):
+                        a = idxs[nth - 1]
+                        while a < len(body) and body[a] in ' \t\n': a += 1
+                        q = body.find('|', a + 1)
+                        k = body.find('{', q + 1) if q > 0 else -1
+                        if body[a:a + 1] == '|' and k > 0:
+                            e = match_brace(s, mask, f['open'] + k) + 1 - f['open']
+                            body_f = body_f.replace(body[a:e], '')
+            if re.search(r'\bf64\b', sig) or re.search(r'\bf64\b', body_f): auto = 'T8'
             elif re.search(r'\.map\(\|_\|', body): auto = 'T9'
             if auto and disp in ('verify', 'default', 'nodecreases'):
                 self.rec(auto, rel, s, f['start'], qual)
@@ -640,6 +653,7 @@ class Weaver:
                     if nth > len(idxs):
                         self.lost.append(f"{rel}: closure \"{needle}\" #{nth} in {qual}"); continue
                     p = f['open'] + idxs[nth - 1]
+                    while p < f['close'] and s[p] in ' \t\n': p += 1
                     lines = [l for l in text.split('\n')]
                     sig = next((l.strip()[4:].strip() for l in lines if l.strip().startswith('sig ')), None)
                     call = next((l.strip()[5:].strip() for l in lines if l.strip().startswith('call ')), None)
@@ -859,6 +873,8 @@ def main():
     json.dump({'transforms': w.transforms, 'lost': w.lost, 'functions': w.fn_info, 'erasure_mismatch': bad},
               open(a.out + '.map.json', 'w'), indent=1)
     print(f"woven {text.count(chr(10))} lines; transforms={len(w.transforms)}; lost={w.lost}; erasure_mismatch={bad}")
+    for sl in w.soft_lost: print('soft-lost:', sl['desc'], sl['props'])
+    if w.unclaimed_sites: print('unclaimed sites:', w.unclaimed_sites)
     sys.exit(2 if (w.lost or bad) else 0)
 
 
